@@ -51,6 +51,7 @@ class Cfg:
         self.arrays = False                  # array<int> values: literals, (at a i), (array_length a), lets/params/returns/globals
         self.oob = False                     # deliberately out-of-range (at a i) now and then (the run ends in the trap)
         self.at_on_call = False              # (at (f ..) i): array operand that is neither a variable nor a literal
+        self.for_bound_mutated = False       # a for loop whose body assigns a variable its range bound reads
         self.__dict__.update(kw)
 
 
@@ -358,6 +359,11 @@ class Gen:
                 sc.setdefault('declared_here', set()).add(a)
             x = self.fresh()
             sub = dict(sc, vars=sc['vars'] + [(x, 'int', False)], depth=sc.get('depth', 0) + 1)
+            amut = any(m for (y, t, m) in sc['vars'] if y == a)
+            if amut and self.c.for_bound_mutated:
+                self.f('for_bound_mutated')      # the body may assign the array the bound (array_length a) reads
+            else:
+                sub['frozen'] = tuple(sc.get('frozen', ())) + (a,)
             body = self.gen_block(sub, depth - 1, r.randrange(0, 3), 'for', ret)
             self.f('for_over_array')
             loop = ('for', x, ('num', 0), ('len', ('var', a)), self.seq([('print', True, ('at', ('var', a), ('var', x))), body]))
